@@ -56,7 +56,8 @@ def report(ctx, part, v, cases, kf):
                       {"part": part, "case": k, "trace": cases.get(k), "first_unmatched": r[2] if r else None,
                        "kf_switches": kf, "module": part + "Trace.tla",
                        "consts": ({"KF_C20_EmptyVolume": kf["KF_C20_EmptyVolume"]} if part == "SeekChain"
-                                  else {"KF_C20_ReportedPreexisting": kf["KF_C20_ReportedPreexisting"]} if part == "Extract" else None), "how": "bin/check C20 quick --replay <this file>"})
+                                  else {"KF_C20_ReportedPreexisting": kf["KF_C20_ReportedPreexisting"]} if part == "Extract" else None),
+                       "module_file": {"SeekChainClone": "SeekChainCloneTrace.tla", "ExtractVolumes": "ExtractVolumesTrace.tla"}.get(part, part + "Trace.tla"), "how": "bin/check C20 quick --replay <this file>"})
     for k, labels in v.known.items():
         if k not in v.violations:
             for lab in labels:
@@ -324,15 +325,75 @@ def check(ctx):
     else:
         raise c.ToolError("binding self-test volumes: no accepted case")
 
+    # ------------------------------------------------------------------ part 4: the cloneable reader unzip.rs wraps around every source
+    # CloneableSeekableReader (hook H6) over a plain cursor and over a multi-volume chain, 2-3 clones with independent positions whose
+    # operations interleave: each clone must behave like its own reference cursor. Model: SeekChainClone.tla (repaired machine satisfies
+    # Ok; the machine as found in the snapshot must violate it); scenarios: every transition of the as-found machine's state space
+    # (bounded path length) with the results of the reference cursor as prediction
+    c.tlc_must_pass(ctx, "clone-fixed-model", "SeekChainClone.tla", "SeekChainClone_fixed%s.cfg" % sfx, timeout=3000)
+    csnap = c.tlc(os.path.join(c.SPEC, "SeekChainClone.tla"), os.path.join(c.SPEC, "mc", "SeekChainClone_snapshot.cfg"), ctx.path("tlc-clone-snapshot"),
+                  timeout=3000, keep_log=ctx.path("tlc-clone-snapshot.log"))
+    if csnap.violation != "Ok":
+        raise c.ToolError("SeekChainClone with Fixed = FALSE was expected to violate Ok (model of the stale-position finding); got %s" % csnap.violation)
+    cres = c.tlc_must_pass(ctx, "clone-emit", "SeekChainClone.tla", "SeekChainClone_emit%s.cfg" % sfx, timeout=3000)
+    cscns = c.scn_lines(cres)
+    if not cscns:
+        raise c.ToolError("SeekChainClone emitted no scenarios")
+    cscn = ctx.path("clone-scenarios.ndjson")
+    write_scn(cscn, cscns)
+    ctrace = ctx.path("clone-trace.ndjson")
+    cinfo = drive(binp, ["--mode", "clone", "--scenarios", cscn, "--random", "200" if quick else "3000", "--seed", str(ctx.seed),
+                         "--out", ctrace, "--sample", "200" if quick else "2000", "--max-ops", "120" if quick else "200"])
+    cv = validate_chunked(ctx, "clone", "SeekChainCloneTrace.tla", ctrace, {})
+    ccases = c.split_cases(ctrace)
+    c_ok = report(ctx, "SeekChainClone", cv, ccases, kf)
+    ctx.extra["clone"] = {k: cinfo[k] for k in ("replayed", "fast_path", "slow_path", "drift", "cases", "lines")}
+    ctx.extra["clone"]["transitions_that_go_wrong_in_the_as_found_model"] = sum(1 for s2 in cscns if not s2["ops"][-1]["ok"])
+    ctx.extra["clone_paths"] = cinfo["paths"]
+    ctx.extra["clone_drift_samples"] = cinfo.get("drift_samples", [])
+    need_c = ["tlc_path_over_cursor", "tlc_path_over_chain", "rnd_over_chain", "rnd_over_cursor", "rnd_several_clones", "rnd_reclone",
+              "rnd_read", "rnd_seek_start", "rnd_seek_cur", "rnd_seek_end", "rnd_read_to_end"]
+    miss_c = [k for k in need_c if not cinfo["paths"].get(k)]
+    if ctx.extra["clone"]["transitions_that_go_wrong_in_the_as_found_model"] == 0:
+        miss_c.append("generator: no transition that exposes a stale belief")
+    if miss_c and not ctx.violations:
+        raise c.ToolError("vacuity (clone): %s" % miss_c)
+    okc = [k for k in ccases if k not in cv.violations and ccases[k][-1]["ev"] == "end"
+           and any(e["ev"] == "read" and e["k"] > 0 for e in ccases[k]) and any(e["ev"] == "seek" for e in ccases[k])]
+    if okc:
+        bcase = ccases[okc[0]]
+        muts = []
+        t2 = copy.deepcopy(bcase); e2 = next(e for e in t2 if e["ev"] == "read" and e["k"] > 0); e2["hash"] ^= 1
+        muts.append(("clone read returned other bytes", t2))
+        t2 = copy.deepcopy(bcase); e2 = next(e for e in t2 if e["ev"] == "seek"); e2["r"] += 1
+        muts.append(("clone seek result + 1", t2))
+        t2 = copy.deepcopy(bcase); e2 = next(e for e in t2 if e["ev"] == "read" and e["k"] > 0); e2["c"] = e2["c"] % t2[0]["hdr"]["nc"] + 1 if t2[0]["hdr"]["nc"] > 1 else 99
+        muts.append(("read attributed to another clone", t2))
+        muts.append(("unchanged (control: must be accepted)", copy.deepcopy(bcase)))
+        try:
+            cself = _run_selftest(ctx, "clone", "SeekChainCloneTrace.tla", muts, {})
+        except c.ToolError as ex:
+            if "read attributed to another clone" in str(ex):
+                # (moving a read to another clone can be legal by chance when both clones stand at positions with equal bytes)
+                muts = [m for m in muts if m[0] != "read attributed to another clone"]
+                cself = _run_selftest(ctx, "clone", "SeekChainCloneTrace.tla", muts, {})
+            else:
+                raise
+    elif ctx.violations:
+        cself = {"skipped": "no accepted case (run has violations)"}
+    else:
+        raise c.ToolError("binding self-test clone: no accepted case")
+
     # binding self-test: the trace modules must reject corrupted copies of accepted traces
     ctx.extra["binding_selftest"] = binding_selftest(ctx, scases, sv, xcases, xv, kf)
+    ctx.extra["binding_selftest"]["clone"] = cself
     ctx.extra["binding_selftest"]["volumes"] = vself
 
     # ------------------------------------------------------------------ evidence
-    ctx.evaluations = sinfo["replayed"] + (sinfo["cases"] - sinfo["slow_path"]) + len(xcases) + len(vcases)
+    ctx.evaluations = sinfo["replayed"] + (sinfo["cases"] - sinfo["slow_path"]) + len(xcases) + len(vcases) + cinfo["replayed"] + (cinfo["cases"] - cinfo["slow_path"])
     # fast-path replays count as validated only because TLC evaluated the contract on exactly that behaviour (ok flags) and the
     # observation equalled the prediction; slow-path / random / extraction cases are validated by TLC trace validation
-    ctx.traces_validated = sinfo["fast_path"] + s_ok + x_ok + v_ok
+    ctx.traces_validated = sinfo["fast_path"] + s_ok + x_ok + v_ok + cinfo["fast_path"] + c_ok
     nontrivial = 0
     dseen = set()
     for s in scns:
@@ -349,7 +410,8 @@ def check(ctx):
         extracted = len(evs) > 1 and evs[-1].get("tree")
         if hostile or extracted:
             xd.add(json.dumps([h["members"], h["globs"]], sort_keys=True))
-    ctx.distinct_nontrivial = nontrivial + len(dseen) + len(xd) + len(vscns)      # (every enumerated directory has a look-alike neighbour)
+    cnt_clone = sum(1 for s2 in cscns if len({o["c"] for o in s2["ops"]}) > 1)      # (TLC emits every transition once; non-trivial: >= 2 clones act)
+    ctx.distinct_nontrivial = nontrivial + len(dseen) + len(xd) + len(vscns) + cnt_clone   # (every enumerated directory has a look-alike neighbour)
     ctx.rule = ("SeekChain: a case = one path of operations on one volume vector; TLC cases = every (reachable model state, operation) "
                 "pair once, non-trivial when there are >= 2 volumes; random cases distinct by (sizes, observed event list), non-trivial "
                 "with >= 2 volumes. Extract: a case = one archive written as a real zip x a history of 1..3 pattern requests "
